@@ -490,7 +490,11 @@ def analyse(fname, hdr, body, protos, statics):
     if target is None:
         raise Unp("no library call found")
     tcalls = [e for e in libcalls if e[1] == target]
-    tcall = tcalls[0]
+    # several syntactic calls (mutually exclusive branches, see Ftoc.branching): describe the one that carries the most
+    # parameters / locals (the other branches pass constants such as NULL and are counted in r_ncalls)
+    def carried(e):
+        return sum(1 for a in e[2] if any(t[0] == "id" and (t[1] in pnames or t[1] in locs) for t in a))
+    tcall = max(tcalls, key=carried)
     pre = [e[1] for e in libcalls if e[1] != target]
     # ---- status
     lhs = tcall[6]
